@@ -14,9 +14,11 @@
 (* Every step (1) updates the observed cluster state and evaluates the        *)
 (* contract (PaxosContract) on it -> "PROP:<clause>", and (2) steps PaxosCore *)
 (* alongside and compares node state, emitted messages and futures ->         *)
-(* "MODEL:<action>:<field>" (drift).  Two lines per trace:                    *)
+(* "MODEL:<action>:<field>" (drift).  While the model is in sync it also      *)
+(* records which deviations were exercised (the step result differs when that *)
+(* deviation alone is switched off).  Two lines per trace:                    *)
 (*    <<"V", id, verdict, pos>>   verdict = ACCEPT | PROP:.. | MODEL:..        *)
-(*    <<"M", id, first model mismatch or "none", pos>>                        *)
+(*    <<"M", id, first model mismatch or "none", pos, exercised deviations>>  *)
 EXTENDS Integers, Sequences, FiniteSets, TLC, Json, IOUtils, Bags, PaxosContract
 
 Traces == JsonDeserialize(IOEnv.TRACE_FILE)
@@ -24,15 +26,17 @@ NT == Len(Traces)
 
 VARIABLES ti, l,
           mnode, mmsgs, mfuts,        \* model state stepped alongside
-          sync, mism, mpos,           \* model still in sync / first mismatch
+          ms,                         \* [sync, mism, mpos, used]: model status
           oDec, oDval, oFuts, prop,   \* observed state
           bad                         \* contract verdict ("" = none)
-vars == <<ti, l, mnode, mmsgs, mfuts, sync, mism, mpos, oDec, oDval, oFuts, prop, bad>>
+vars == <<ti, l, mnode, mmsgs, mfuts, ms, oDec, oDval, oFuts, prop, bad>>
 
 Tr == Traces[IF ti <= NT THEN ti ELSE NT]
 Range(s) == { s[i] : i \in DOMAIN s }
+TDev == Range(Tr.dev)
 
-C == INSTANCE PaxosCore WITH N <- Tr.n, Dev <- Range(Tr.dev), Learn <- TRUE
+C == INSTANCE PaxosCore WITH N <- Tr.n, Dev <- TDev, Learn <- TRUE
+CX(d) == INSTANCE PaxosCore WITH N <- Tr.n, Dev <- TDev \ {d}, Learn <- TRUE
 
 \* ---- JSON -> model representation ------------------------------------------
 B2(x) == <<x[1], x[2]>>
@@ -58,19 +62,14 @@ FirstDiff(a, b) ==
     LET d == { i \in 1..Len(Fields) : a[Fields[i]] # b[Fields[i]] }
     IN IF d = {} THEN "" ELSE Fields[CHOOSE i \in d : \A j \in d : i <= j]
 
-InitTrace ==
-    /\ l = 1
-    /\ mnode = [n \in 1..Tr.n |-> C!InitNode]
-    /\ mmsgs = EmptyBag
-    /\ mfuts = <<>>
-    /\ sync = TRUE /\ mism = "none" /\ mpos = 0
-    /\ oDec = [n \in 1..Tr.n |-> FALSE]
-    /\ oDval = [n \in 1..Tr.n |-> 0]
-    /\ oFuts = <<>>
-    /\ prop = {}
-    /\ bad = ""
+MS0 == [sync |-> TRUE, mism |-> "none", mpos |-> 0, used |-> {}]
 
-Init == ti = 1 /\ InitTrace
+Init ==
+    /\ ti = 1 /\ l = 1
+    /\ mnode = [n \in 1..Tr.n |-> C!InitNode]
+    /\ mmsgs = EmptyBag /\ mfuts = <<>> /\ ms = MS0
+    /\ oDec = [n \in 1..Tr.n |-> FALSE] /\ oDval = [n \in 1..Tr.n |-> 0]
+    /\ oFuts = <<>> /\ prop = {} /\ bad = ""
 
 \* ---- contract on the observed execution -------------------------------------
 ObsStep(s) ==
@@ -91,61 +90,63 @@ ObsStep(s) ==
 
 \* ---- the implementation model stepped alongside -----------------------------
 \* (values are bound with \E x \in {e} so that TLC evaluates each of them exactly once)
-Fail(what) == /\ sync' = FALSE /\ mism' = what /\ mpos' = l
+Fail(what) == /\ ms' = [ms EXCEPT !.sync = FALSE, !.mism = what, !.mpos = l]
               /\ UNCHANGED <<mnode, mmsgs, mfuts>>
 
-Compare(tag, n, r, fs, obs, outb, s, consumed) ==
+Compare(tag, n, r, fs, obs, outb, s, consumed, exercised) ==
     IF r.ns # obs THEN Fail("MODEL:" \o tag \o ":" \o FirstDiff(r.ns, obs))
     ELSE IF SeqBag(r.out) # outb THEN Fail("MODEL:" \o tag \o ":out")
     ELSE IF FutVals(fs) # s.futs THEN Fail("MODEL:" \o tag \o ":futs")
     ELSE /\ mnode' = [mnode EXCEPT ![n] = r.ns]
          /\ mmsgs' = (mmsgs (-) consumed) (+) outb
-         /\ mfuts' = fs /\ UNCHANGED <<sync, mism, mpos>>
+         /\ mfuts' = fs /\ ms' = [ms EXCEPT !.used = @ \cup exercised]
 
 ModelStep(s) ==
-    IF ~sync THEN UNCHANGED <<mnode, mmsgs, mfuts, sync, mism, mpos>>
+    IF ~ms.sync THEN UNCHANGED <<mnode, mmsgs, mfuts, ms>>
     ELSE
     \E n \in {s.node}, m \in {MsgOf(s.m)} :
     CASE s.a = "drop" ->
            IF ~BagIn(m, mmsgs) THEN Fail("MODEL:drop:unknown_message")
-           ELSE /\ mmsgs' = mmsgs (-) SetToBag({m}) /\ UNCHANGED <<mnode, mfuts, sync, mism, mpos>>
+           ELSE /\ mmsgs' = mmsgs (-) SetToBag({m}) /\ UNCHANGED <<mnode, mfuts, ms>>
       [] s.a = "propose" ->
            \E obs \in {NodeOf(s.post)}, outb \in {OutBag(s.out)} :
            IF mnode[n].dec
            THEN Compare("propose_decided", n, [ns |-> mnode[n], out |-> <<>>, res |-> <<>>],
-                        Append(mfuts, [owner |-> n, val |-> mnode[n].dval]), obs, outb, s, EmptyBag)
+                        Append(mfuts, [owner |-> n, val |-> mnode[n].dval]), obs, outb, s, EmptyBag, {})
            ELSE \E r \in {C!Propose(mnode[n], n, s.v, Len(mfuts) + 1)} :
-                Compare("propose", n, r, Append(mfuts, [owner |-> n, val |-> Pending]), obs, outb, s, EmptyBag)
+                Compare("propose", n, r, Append(mfuts, [owner |-> n, val |-> Pending]), obs, outb, s, EmptyBag,
+                        { d \in TDev : CX(d)!Propose(mnode[n], n, s.v, Len(mfuts) + 1) # r })
       [] s.a = "deliver" ->
            IF ~BagIn(m, mmsgs) THEN Fail("MODEL:" \o m.t \o ":unknown_message")
            ELSE IF m.dst # n THEN Fail("MODEL:" \o m.t \o ":wrong_node")
            ELSE \E obs \in {NodeOf(s.post)}, outb \in {OutBag(s.out)}, r \in {C!Handle(mnode[n], m)} :
-                Compare(m.t, n, r, Resolve(mfuts, r.res, 1), obs, outb, s, SetToBag({m}))
+                Compare(m.t, n, r, Resolve(mfuts, r.res, 1), obs, outb, s, SetToBag({m}),
+                        { d \in TDev : CX(d)!Handle(mnode[n], m) # r })
       [] OTHER -> Fail("MODEL:unknown_action")
 
 Finish(verdict, pos) ==
     /\ PrintT(<<"V", Tr.id, verdict, pos>>)
-    /\ PrintT(<<"M", Tr.id, mism, mpos>>)
+    /\ PrintT(<<"M", Tr.id, ms.mism, ms.mpos, ms.used>>)
     /\ ti' = ti + 1
     /\ IF ti < NT
        THEN LET T2 == Traces[ti + 1] IN
             /\ l' = 1
             /\ mnode' = [n \in 1..T2.n |-> C!InitNode]
-            /\ mmsgs' = EmptyBag /\ mfuts' = <<>>
-            /\ sync' = TRUE /\ mism' = "none" /\ mpos' = 0
+            /\ mmsgs' = EmptyBag /\ mfuts' = <<>> /\ ms' = MS0
             /\ oDec' = [n \in 1..T2.n |-> FALSE] /\ oDval' = [n \in 1..T2.n |-> 0]
             /\ oFuts' = <<>> /\ prop' = {} /\ bad' = ""
-       ELSE UNCHANGED <<l, mnode, mmsgs, mfuts, sync, mism, mpos, oDec, oDval, oFuts, prop, bad>>
+       ELSE UNCHANGED <<l, mnode, mmsgs, mfuts, ms, oDec, oDval, oFuts, prop, bad>>
 
 EndVerdict ==
     IF Tr.mode = "progress" /\ ~ProgressSingle(oDec, oDval, oFuts, Tr.pval) THEN "PROP:progress_single_proposer"
-    ELSE IF mism # "none" THEN mism
+    ELSE IF ms.mism # "none" THEN ms.mism
     ELSE "ACCEPT"
 
 Next ==
     /\ ti <= NT
     /\ IF bad # "" THEN Finish(bad, l - 1)
-       ELSE IF l > Len(Tr.steps) THEN Finish(EndVerdict, IF mism # "none" THEN mpos ELSE l - 1)
+       ELSE IF l > Len(Tr.steps)
+            THEN Finish(EndVerdict, IF ms.mism # "none" /\ EndVerdict = ms.mism THEN ms.mpos ELSE l - 1)
        ELSE \E s \in {Tr.steps[l]} : ObsStep(s) /\ ModelStep(s) /\ l' = l + 1 /\ ti' = ti
 
 Spec == Init /\ [][Next]_vars
